@@ -1,4 +1,4 @@
-import UralModel.Lemmas.FacebookTotal
+import UralModel.Lemmas.FacebookShapes
 /-!
 # C19, part `facebook` — `ural/facebook.py` is total and agrees with the urls it builds
 
@@ -171,5 +171,233 @@ theorem convert_only_documented_error (url : Str) :
       · intro e h; cases h; rfl
       · intro _; trivial
       · intro _; exact ⟨_, rfl⟩
+
+/-! ## well-formed records: shape and the module's own validator -/
+
+/-- **a returned record has the documented shape and its id / handle fields agree with the
+module's validator** (`Shaped`, `IdsValid` in `Lemmas/FacebookValid.lean`): a `FacebookUser`
+has no handle; a `FacebookGroup` has exactly one of `id` / `handle`; a `FacebookPost` exactly one
+of its four parents; a `FacebookPhoto` read from a path has a parent and an album, one read
+from `photo.php` has no parent; `group_id`, `FacebookGroup.id` and the `parent_id` of a photo
+satisfy `is_facebook_id`, `group_handle`, `parent_handle`, `FacebookGroup.handle` do not. -/
+theorem record_valid (url : Str) (rel : Bool) (r : Parsed)
+    (h : parse_facebook_url url rel = .ok (some r)) : IdsValid r ∧ Shaped r :=
+  parse_facebook_url_good url rel r h
+
+/-- `has_facebook_comments` is `True` exactly when the url is a facebook url that parses to a
+post, a photo or a video -/
+theorem has_facebook_comments_spec (url : Str) (rel : Bool) :
+    has_facebook_comments url rel =
+      .ok (isFacebookUrlB url &&
+        (match parse_facebook_url url rel with
+         | .ok o => hasComments o
+         | .error _ => false)) := by
+  unfold has_facebook_comments
+  rw [is_facebook_url_eq]
+  cases isFacebookUrlB url with
+  | false => rfl
+  | true =>
+    simp only [Bool.true_and]
+    cases h : parse_facebook_url url rel with
+    | error e => exact absurd h (parse_facebook_url_total url rel e)
+    | ok o => rfl
+
+/-! ## round trip -/
+
+/-- the records for which the round trip is proved, shape by shape (all hypotheses are
+decidable and spelled out in `Lemmas/FacebookShapes.lean`):
+
+* a field that ends up in the *path* of the url is `segOk`: not empty, without `/ ? # ;` and
+  white space, not `.` / `..`; it must not start with `watch` (nor, for a handle, with
+  `people`, nor end with `.php`), must not be a route word that an earlier route of the parser
+  tests (`videos`, `photos`, `groups` where relevant); an album id must not contain `a.`;
+* a field that ends up in the *query* is `qvalOk`: not empty, without `& # + %`, TAB, CR, LF;
+* ids and handles are told apart by `is_facebook_id`, as the parser does;
+* only the field combinations the parser produces (`Shaped`). -/
+def reparsable : Parsed → Bool
+  | .user id h => h.isNone && qvalOk id
+  | .handle h => handleOk h
+  | .group id h =>
+    (match id, h with
+     | some g, none => groupOk g && is_facebook_id g
+     | none, some g => groupOk g && !is_facebook_id g
+     | _, _ => false)
+  | .post id pid ph gid gh =>
+    (match pid, ph, gid, gh with
+     | some p, none, none, none => qvalOk p && qvalOk id
+     | none, some x, none, none => postHandleOk x id
+     | none, none, some g, none => postGroupOk g id && is_facebook_id g
+     | none, none, none, some g => postGroupOk g id && !is_facebook_id g
+     | _, _, _, _ => false)
+  | .video id pid =>
+    (match pid with
+     | none => qvalOk id
+     | some p => videoParentOk p id)
+  | .photo id gid pid ph aid =>
+    (match pid, ph with
+     | none, none => photoQueryOk id gid aid
+     | some p, none =>
+       (match gid, aid with
+        | none, some a => photoPathOk p a id && is_facebook_id p
+        | _, _ => false)
+     | none, some p =>
+       (match gid, aid with
+        | none, some a => photoPathOk p a id && !is_facebook_id p
+        | _, _ => false)
+     | some _, some _ => false)
+
+/-- the full statement of the round trip: every record the parser returns has a canonical url
+that parses to the same record -/
+def FullReparse : Prop :=
+  ∀ (url : Str) (rel : Bool) (r : Parsed), parse_facebook_url url rel = .ok (some r) → Reparses r
+
+/-- **round trip, proved part**: for a `reparsable` record, `.url` returns a url (no exception,
+not `None`) and `parse_facebook_url` of that url — with either value of
+`allow_relative_urls` — is the same record. -/
+theorem reparse_url_partial (r : Parsed) (h : reparsable r = true) : Reparses r := by
+  cases r with
+  | user id hd =>
+    cases hd with
+    | none => exact reparse_user id (by simpa [reparsable] using h)
+    | some x => simp [reparsable] at h
+  | handle hd => exact reparse_handle hd h
+  | group id hd =>
+    cases id <;> cases hd <;>
+      simp only [reparsable, Bool.and_eq_true, Bool.not_eq_true', Bool.false_eq_true] at h
+    · have := reparse_group _ h.1
+      simpa [h.2] using this
+    · have := reparse_group _ h.1
+      simpa [h.2] using this
+  | post id pid ph gid gh =>
+    cases pid <;> cases ph <;> cases gid <;> cases gh <;>
+      simp only [reparsable, Bool.and_eq_true, Bool.not_eq_true', Bool.false_eq_true] at h
+    · have := reparse_post_group _ id h.1
+      simpa [h.2] using this
+    · have := reparse_post_group _ id h.1
+      simpa [h.2] using this
+    · exact reparse_post_parent_handle _ id h
+    · exact reparse_post_parent_id _ id h.1 h.2
+  | video id pid =>
+    cases pid with
+    | none => exact reparse_video id h
+    | some p => exact reparse_video_parent p id h
+  | photo id gid pid ph aid =>
+    cases pid <;> cases ph
+    · exact reparse_photo_query id gid aid h
+    · cases gid <;> cases aid <;>
+        simp only [reparsable, Bool.and_eq_true, Bool.not_eq_true', Bool.false_eq_true] at h
+      have := reparse_photo_path _ _ id h.1
+      simpa [h.2] using this
+    · cases gid <;> cases aid <;>
+        simp only [reparsable, Bool.and_eq_true, Bool.not_eq_true', Bool.false_eq_true] at h
+      have := reparse_photo_path _ _ id h.1
+      simpa [h.2] using this
+    · simp only [reparsable, Bool.false_eq_true] at h
+
+instance {α : Type} [DecidableEq α] : DecidableEq (Except Err α) := fun a b =>
+  match a, b with
+  | .ok x, .ok y => if h : x = y then isTrue (by rw [h]) else isFalse (fun e => h (by cases e; rfl))
+  | .error x, .error y => if h : x = y then isTrue (by rw [h]) else isFalse (fun e => h (by cases e; rfl))
+  | .ok _, .error _ => isFalse (fun e => nomatch e)
+  | .error _, .ok _ => isFalse (fun e => nomatch e)
+
+/-- the witness url, the handle it parses to, the url of that handle -/
+def witnessUrl : Str := "https://www.facebook.com//people".toList
+def witnessHandle : Str := "people".toList
+def witnessCanonical : Str := "https://www.facebook.com/people".toList
+
+/-- `facebook.com//people` parses to the handle `people`, whose url
+`https://www.facebook.com/people` is taken by the `/people` route and parses to `None` -/
+theorem witness_facts :
+    parse_facebook_url witnessUrl false = .ok (some (.handle witnessHandle)) ∧
+    (Parsed.handle witnessHandle).url = .ok (some witnessCanonical) ∧
+    parse_facebook_url witnessCanonical false = .ok none := by decide +kernel
+
+theorem not_fullReparse_of_witness (u0 c0 : Str) (r0 : Parsed)
+    (h1 : parse_facebook_url u0 false = .ok (some r0)) (h2 : r0.url = .ok (some c0))
+    (h3 : parse_facebook_url c0 false = .ok none) : ¬ FullReparse := by
+  intro h
+  obtain ⟨u, hu, hr⟩ := h _ _ _ h1
+  have hu'' : u = c0 := by
+    rw [h2] at hu
+    injection hu with hu; injection hu with hu; exact hu.symm
+  have := hr false
+  rw [hu'', h3] at this
+  injection this with this
+  exact nomatch this
+
+/-- **the full statement fails on the code as it is** (known finding KF-C19-FB-1, replayed on
+the implementation by the check): see `witness_facts`. -/
+theorem fullReparse_false : ¬ FullReparse :=
+  not_fullReparse_of_witness witnessUrl witnessCanonical (.handle witnessHandle)
+    witness_facts.1 witness_facts.2.1 witness_facts.2.2
+
+/-- the other excluded shapes fail too (each one is a known finding): an empty path segment
+read as an id, `set=g.` read as an empty group id, an album id that still contains `a.` -/
+theorem excluded_shapes_fail :
+    parse_facebook_url "https://www.facebook.com/nasa/videos//5".toList false
+      = .ok (some (.video [] (some "nasa".toList))) ∧
+    parse_facebook_url "https://www.facebook.com/nasa/videos/".toList false = .ok none ∧
+    parse_facebook_url "https://www.facebook.com/photo.php?fbid=1&set=g.".toList false
+      = .ok (some (.photo "1".toList (some []) none none none)) ∧
+    parse_facebook_url "https://www.facebook.com/photo.php?fbid=1".toList false
+      = .ok (some (.photo "1".toList none none none none)) ∧
+    parse_facebook_url "https://www.facebook.com/nasa/photos/aa../5".toList false
+      = .ok (some (.photo "5".toList none none (some "nasa".toList) (some "a.".toList))) ∧
+    parse_facebook_url "https://www.facebook.com/nasa/photos/a.a./5".toList false
+      = .ok (some (.photo "5".toList none none (some "nasa".toList) (some []))) := by
+  decide +kernel
+
+/-! ## non-vacuity -/
+
+/-- the truncated paths of the property statement parse to `None` -/
+example :
+    parse_facebook_url "facebook.com/groups/".toList false = .ok none ∧
+    parse_facebook_url "facebook.com/x/videos/".toList false = .ok none ∧
+    parse_facebook_url "facebook.com/profile.php".toList false = .ok none ∧
+    parse_facebook_url "facebook.com/people/x".toList true = .ok none ∧
+    parse_facebook_url "[".toList false = .ok none ∧
+    parse_facebook_url "[".toList true = .ok (some (.handle "[".toList)) := by decide +kernel
+
+/-- one record of every class is returned, and is `reparsable` (the hypotheses of the
+round-trip theorem are satisfiable by what the parser returns on ordinary urls) -/
+example :
+    (parse_facebook_url "https://www.facebook.com/nasa".toList false = .ok (some (.handle "nasa".toList)) ∧
+      reparsable (.handle "nasa".toList) = true) ∧
+    (parse_facebook_url "https://m.facebook.com/profile.php?id=100012345".toList false
+        = .ok (some (.user "100012345".toList none)) ∧ reparsable (.user "100012345".toList none) = true) ∧
+    (parse_facebook_url "facebook.com/groups/12345678/permalink/99".toList false
+        = .ok (some (.post "99".toList none none (some "12345678".toList) none)) ∧
+      reparsable (.post "99".toList none none (some "12345678".toList) none) = true) ∧
+    (parse_facebook_url "/nasa/photos/a.123/456/?type=3".toList true
+        = .ok (some (.photo "456".toList none none (some "nasa".toList) (some "123".toList))) ∧
+      reparsable (.photo "456".toList none none (some "nasa".toList) (some "123".toList)) = true) ∧
+    (parse_facebook_url "https://www.facebook.com/watch/?v=448540820705115".toList false
+        = .ok (some (.video "448540820705115".toList none)) ∧
+      reparsable (.video "448540820705115".toList none) = true) ∧
+    (parse_facebook_url "https://www.facebook.com/groups/nasa/".toList false
+        = .ok (some (.group none (some "nasa".toList))) ∧ reparsable (.group none (some "nasa".toList)) = true) := by
+  decide +kernel
+
+/-- the conversion to the mobile site and its documented error -/
+example :
+    convert_facebook_url_to_mobile "https://www.facebook.com/nasa?x=1#f".toList
+      = .ok "https://m.facebook.com/nasa?x=1#f".toList ∧
+    convert_facebook_url_to_mobile "fr-fr.facebook.com/nasa".toList = .ok "m.facebook.com/nasa".toList ∧
+    convert_facebook_url_to_mobile "https://twitter.com/nasa".toList = .error .typeError ∧
+    convert_facebook_url_to_mobile "http://[facebook.com/".toList = .error .typeError := by decide +kernel
+
+/-- the predicates and the link extractor -/
+example :
+    is_facebook_url "https://fb.me/x".toList = .ok true ∧ is_facebook_url "https://notfacebook.com/".toList = .ok false ∧
+    is_facebook_url "[".toList = .ok false ∧
+    is_facebook_link "https://l.facebook.com/l.php?u=http%3A%2F%2Fa.com".toList = .ok true ∧
+    extract_url_from_facebook_link "https://l.facebook.com/l.php?u=http%3A%2F%2Fa.com&h=1".toList
+      = some "http://a.com".toList ∧
+    is_facebook_post_url "https://www.facebook.com/nasa/posts/1".toList = .ok true ∧
+    is_facebook_id "1234".toList = true ∧ is_facebook_id "12a4".toList = false ∧
+    is_facebook_full_id "12_34".toList = true ∧
+    has_facebook_comments "https://www.facebook.com/nasa/posts/1".toList false = .ok true ∧
+    has_facebook_comments "https://www.facebook.com/nasa".toList false = .ok false := by decide +kernel
 
 end Ural.Props.C19.Facebook
